@@ -1,55 +1,7 @@
 """findings_C05.py — trigger predicates of the open known findings of property C05.
 
-Each predicate decides from the *case* (kind of node, old token spelling, new value) whether the
-defect's trigger is present, without looking at what MontePy wrote; it then confirms (rule iii) that
-the same case with the triggering feature removed passes the oracle, so that any other way of losing
-a number is still reported as a violation.
-
-The six findings of round 1 (precision-cap, intlike-six-digits, scratch-five-digits, int-truncation,
-int-isclose, neg-sci-crash) are fixed in /repo (67080db, a966343, f5bfd19, 14c016e): their predicates are
-gone, their witnesses are regression cases in corpus/C05/fixed-*.json (a fixed entry suppresses nothing)."""
-import re
-
-
-def _val(case):
-    k, s = case["val"]
-    return int(s) if k == "i" else float.fromhex(s)
-
-
-def _passes_with_value(case, v, kind):
-    """does the same case with another value no longer fail in this way?"""
-    import props.C05 as C05
-    c = dict(case)
-    c["val"] = ["i", str(v)] if isinstance(v, int) else ["f", float(v).hex()]
-    f = C05.check_case(c)
-    return f is None or f["kind"] != kind
-
-
-def C05_conv_og_float(case, params):
-    """F-C05-conv-og-float: a node converted with _convert_to_int() (directly or through
-    is_negatable_identifier) whose token is an integer that float() cannot hold (>= 2**53, not a multiple of
-    the spacing of doubles there); the new integer is exactly float(token) but not int(token):
-    _value_changed compares with the float _og_value, says 'unchanged', and the old token is written."""
-    c = case.get("case")
-    if not c or case.get("kind") != "int-not-exact":
-        return False
-    if c.get("kind") != "c":
-        return False
-    tok = c.get("tok")
-    v = _val(c)
-    if not isinstance(v, int) or tok in (None, "<J>"):
-        return False
-    m = re.fullmatch(r"([+-]?\d+)(\.0*)?", tok)
-    if not m:
-        return False
-    ti = int(m.group(1))
-    try:
-        tf = float(ti)
-    except OverflowError:
-        return False
-    if tf == ti:                       # the token's float is the token's integer: no trigger
-        return False
-    if v != int(tf) or v == ti:        # only the integer float(token) denotes is mistaken for 'unchanged'
-        return False
-    # the same node given a different integer is written exactly
-    return _passes_with_value(c, v + 7, "int-not-exact")
+There is no open finding.  The findings of rounds 1 and 2 (precision-cap, intlike-six-digits,
+scratch-five-digits, int-truncation, int-isclose, neg-sci-crash, conv-og-float) are fixed in /repo
+(67080db, a966343, f5bfd19, 14c016e, da649a9); they are listed in findings/C05.fixed.json and their witnesses
+are regression cases in corpus/C05/fixed-*.json: a fixed entry suppresses nothing, so if one of the defects
+returns the check reports a VIOLATION."""
